@@ -87,6 +87,23 @@ CHECKS['C06'] = (
     'the watchdog (30 s, re-run 120 s) decides "hang"; documented diagnostics are recognised by type and message fragment',
     '3/C06')
 
+CHECKS['C08'] = (
+    'bounded-exhaustive + random + mutated strings, conservation aligner (input vs output)',
+    'every string up to a length bound over the construct-token and category alphabets, random strings, single-fault '
+    'mutations of generated documents and whitespace-spaced renderings of generated documents that satisfy the two side '
+    'conditions (lexical scanner) and parse in strict mode is aligned against its serialisation: nothing may change '
+    'except blank runs directly before { or [. Exhaustive within the length bound, exploration beyond.',
+    'the scanner is conservative (declined strings are counted, not judged)',
+    '3/C08')
+CHECKS['C16'] = (
+    'bounded-exhaustive + random + mutated strings and spaced generated documents, parse-serialise-parse metamorphic check',
+    'for every in-domain string (C08 domain plus the sizing side condition) the saved text must parse again, save to '
+    'the identical text and give the identical canonical tree; for generated documents written with arbitrary attaching '
+    'whitespace the saved text must equal the adjacent rendering of the same syntax tree. Exploration (exhaustive within '
+    'the length bound).',
+    'same scanner as C08; the generating syntax tree is the oracle for spaced documents',
+    '3/C16')
+
 PENDING = {}
 
 
